@@ -39,7 +39,13 @@ HetOther == {StrV(<<"a">>), NumV(4), SeqV(TTup(<<TStr>>), <<StrV(<<"a">>)>>), Se
 HetLines == {[k |-> "call", api |-> api, xs |-> <<[keys |-> <<"a", "b", "c">>]>>, a |-> s, vs |-> <<>>]
               : api \in {"ListVal", "SetVal", "MapVal"}, s \in {<<p, o>> : p \in HetPlace, o \in HetOther} \cup {<<o, p>> : p \in HetPlace, o \in HetOther}
                                                                   \cup {<<o, p, o>> : p \in TakeN(HetPlace, 2), o \in TakeN(HetOther, 3)} \cup {<<p, q>> : p \in HetPlace, q \in HetPlace}}
-Lines == IF Fam = "convert" THEN ConvLines ELSE CtorLines \cup MarkApiLines \cup DupKeyLines \cup HetLines
+\* conversion functions built for representative target types (stdlib.MakeToFunc): every source value (known, null, unknown, marked,
+\* nested unknown) of primitive, collection and structural types, including collections whose element type is an object or a tuple
+ToTargets == {TStr, TNum, TBool, TList(TStr), TSet(TStr), TMap(TStr), TList(TDyn), TSet(TDyn), TMap(TDyn), TDyn, TList(TObj([a |-> TStr])), TObj([a |-> TStr, b |-> TNum])}
+ToSrcT == PrimTypes \cup VT1 \cup TakeN(VT2, 6) \cup {TList(TObj([a |-> TNum])), TSet(TTup(<<TNum, TStr>>)), TMap(TList(TObj([a |-> TNum]))), TList(TTup(<<TStr>>)), TMap(TObj([a |-> TNum, b |-> TStr]))}
+ToLines == UNION {{[k |-> "call", api |-> "fn:to", xs |-> [i \in 1..Len(SetToSeq(ToTargets)) |-> [ty |-> SetToSeq(ToTargets)[i]]], a |-> <<v>>, vs |-> <<>>]
+                   : v \in TakeN(Vals(t, W), 4) \cup {Null(t), Unk(t, NoRf), Unk(t, [null |-> "F"]), DynVal, WithMk(Unk(t, NoRf), <<"m1">>)} \cup UNION {TakeN(Weak1(x, TRUE), 2) \cup TakeN(MarkNested(x, <<"m2">>), 1) : x \in TakeN(Vals(t, W), 2)}} : t \in ToSrcT}
+Lines == IF Fam = "to" THEN ToLines ELSE IF Fam = "convert" THEN ConvLines ELSE CtorLines \cup MarkApiLines \cup DupKeyLines \cup HetLines
 ASSUME LET sq == SetToSeq(Lines) IN ndJsonSerialize(IOEnv.VOUT, sq) /\ PrintT(<<"GEN", Len(sq)>>)
 VARIABLE x
 Init == x = 0
